@@ -335,7 +335,17 @@ pub fn drive(log: &mut Log) {
             continue;
         }
         let mut rng = Rng::new(seed, 2, case);
-        let alpha: &[u8] = acgt;
+        // long inputs over unusual bytes as well (0xFF, 0x00, bytes differing in the top bit)
+        let big_twins: [u8; 4] = [0x41, 0xC1, 0x43, 0xC3];
+        let big_extremes: [u8; 4] = [0, 255, 128, 127];
+        let alpha: &[u8] = match b % 5 {
+            1 => {
+                log.oblige("big_inputs_with_byte_0xff");
+                &big_extremes
+            }
+            3 => &big_twins,
+            _ => acgt,
+        };
         let mut sc = random_scheme(&mut rng, 4);
         let rel = b % 4;
         // equal inputs under a table whose best partner of a symbol is ANOTHER symbol: x = y = u^r for a
